@@ -6,12 +6,21 @@ def build(repo, tier, seed):
     b = classlaws.bundle(repo, tier, seed, ("C05",), classes=["WithOptions"])
     t_syn, t_und = dataset_tower.tower_obligations(repo)
     d_syn, d_und = dataset_tower.derive_obligations(repo)
-    b["syntactic"] += t_syn + d_syn + frame_l11.obligations(repo)
-    b["undecided"] += t_und + d_und
+    from . import factory
+    from .common import fn_hashes
+    f_syn, f_und = factory.obligations(repo)
+    b["syntactic"] += t_syn + d_syn + frame_l11.obligations(repo) + f_syn
+    b["undecided"] += t_und + d_und + f_und
+    fns, hs = fn_hashes(repo, ["labrea.dataset:DatasetFactory.wrap"])
+    b["functions"] += fns
+    b["hashes"].update(hs)
+    b["group_hashes"]["DatasetFactory.wrap:C08"] = hs
     b["assumptions"] += ["'P wins / o wins / sections merged key by key' is the assumed meaning of confectioner.mix (OptTheory.mix); what is proved is that "
                          "WithOptions evaluates the wrapped expression under exactly mix(o,P) resp. mix(P,o), that Dataset._composed is "
                          "WithDefaultOptions(WithOptions(cached(...), options), default_options), and that with_options/with_default_options carry every other field over",
                          "with_options(Q) where Q overlaps the dataset's own pre-set options is recorded finding F20 (the derivative's options win)",
-                         "DatasetFactory.__call__/update/wrap keyword plumbing is not under contract (bounded stand-in: harness.lawsearch law C08 on decorator-built datasets)",
+                         "DatasetFactory.wrap (what @dataset finally calls) is under contract: the Dataset it returns carries the factory's dispatch (no registrations), the definition as default implementation (none when abstract), "
+                         "effects, options, default options, Pipeline() + callback and the cache chosen by the stated rule, and evaluates nothing (group DatasetFactory.wrap:C08; Pipeline.__add__ and FunctionApplication.lift by contract)",
+                         "DatasetFactory.__call__/update keyword merging and FunctionApplication.lift (inspect.signature) are not under contract (bounded stand-in: harness.lawsearch law C08 on decorator-built datasets)",
                          "L11 is a syntactic obligation over the AST of every method of every class of /repo/labrea; mix/resolve/get_dotted_key are pure by their assumed contracts"]
     return b
